@@ -620,6 +620,23 @@ def _execute(plan, out, root, root_b, scratch):
                   "s": [[n, ["T-" + x for x in ks]]
                         for n, ks in plan["expect_s"]]}
         ld = ZConfig.loader.ConfigLoader(schema)
+        if len(plan["config_order"]) > 1:
+            # first a load through this loader that FAILS inside the deepest
+            # included resource (a stray line), then the file is repaired:
+            # what the failed load leaves on the loader must not matter
+            victim = os.path.join(root, plan["config_order"][-1])
+            with open(victim, "a", encoding="utf-8") as f:
+                f.write("<<< not a section header\n")
+            w.begin_op("config:same-loader:failing")
+            o = ops.config_outcome(lambda: ld.loadURL(cfull))
+            w.end_op("ok" if o["ok"] else o["cls"])
+            out["evaluations"] += 1
+            if o["ok"]:
+                violation("wrong-result", "config-same-loader",
+                          "a stray line in %s was accepted"
+                          % plan["config_order"][-1])
+            materialise(plan, root)
+            probe("same-loader-after-failed-load")
         for phase, wnt, twin in (("first", want, False),
                                  ("rewritten", want_b, True),
                                  ("restored", want, False)):
